@@ -44,6 +44,7 @@ type dCase struct {
 	specs  []*dtypes.GroupSpec
 	chain  []dtypes.Group
 	key    string // canonical totals of the oracle (single-group grammars)
+	okey   string // same with position-wise attribute lists
 	sum    uint64
 	digest [32]byte
 }
@@ -52,14 +53,24 @@ type mCase struct {
 	model    []MGroup
 	manifest manifest.Manifest
 	key      string
+	okey     string
 	sum      uint64
 	digest   [32]byte
+}
+
+func orderedKey(t totals) string {
+	var parts []string
+	for u, n := range t.ordered {
+		parts = append(parts, fmt.Sprintf("%s=%d", u, n))
+	}
+	sort.Strings(parts)
+	return strings.Join(parts, ",")
 }
 
 func totalsKey(t totals) string {
 	var parts []string
 	for u, n := range t.replicas {
-		parts = append(parts, fmt.Sprintf("%d/%d/%d/%s=%d", u.CPU, u.Mem, u.Sto, u.Arch, n))
+		parts = append(parts, fmt.Sprintf("%s=%d", u, n))
 	}
 	sort.Strings(parts)
 	return fmt.Sprintf("%s|S%d|R%d", strings.Join(parts, ","), t.shared, t.random)
@@ -77,7 +88,7 @@ func mkD(gs []DGroup) dCase {
 	c := dCase{model: gs, specs: groupSpecs(gs), chain: chainGroups(gs)}
 	if len(gs) == 1 {
 		t := dTotals(gs[0])
-		c.key, c.sum = totalsKey(t), t.sum
+		c.key, c.okey, c.sum = totalsKey(t), orderedKey(t), t.sum
 	}
 	c.digest = digestOf([]interface{}{c.chain, c.specs})
 	return c
@@ -87,7 +98,7 @@ func mkM(ms []MGroup) mCase {
 	c := mCase{model: ms, manifest: manifestOf(ms)}
 	if len(ms) == 1 {
 		t := mTotals(ms[0])
-		c.key, c.sum = totalsKey(t), t.sum
+		c.key, c.okey, c.sum = totalsKey(t), orderedKey(t), t.sum
 	}
 	c.digest = digestOf(c.manifest)
 	return c
@@ -112,7 +123,9 @@ func (s crossScope) Describe() string {
 		"B(endpoints): one group, entries = sequences of length 1..%d over (unit in {0,1} x count in {1,2} x endpoints in %v), services = sequences of length 1..%d over "+
 		"(unit in {0,1} x count in {1,2} x exposes in %v of exposeAlphabet), full product; "+
 		"C(groups): deployment group lists over names {g1,g2} (1-2 distinct, both orders) x %d contents, manifests with 1-2 groups over names {g1,g2,g3} incl. duplicates x %d contents, full product; "+
-		"D(single difference): 1 entry x 1 service, every unit pair of the 5-unit alphabet x counts 1..3 x 1..3 x endpoint lists x expose lists",
+		"D(single difference): 1 entry x 1 service, every unit pair of the first 5 units x counts 1..3 x 1..3 x endpoint lists x expose lists; "+
+		"E(attribute lists): entries = sequences of length 1..2 over (base unit or {canonical {class=ssd,zone=a}, duplicate-first, reordered} on cpu/memory/storage x count 1..2), services = sequences of length 1..2 over "+
+		"(base unit or every variant {canonical, duplicate-first, reordered, duplicate-second, superset, subset, other-value} on cpu/memory/storage x count 1..2), full product",
 		s.ADLen, s.AUnits, s.ACounts, s.AMLen, s.A4, s.BDLen, bEndpointLists, s.BMLen, bExposeLists, len(cDContents), len(cMContents))
 }
 
@@ -209,7 +222,7 @@ func grammarC() (ds []dCase, ms []mCase) {
 }
 
 func grammarD() (ds []dCase, ms []mCase) {
-	for u := range unitAlphabet {
+	for u := 0; u < attrUnitFirst; u++ {
 		for c := uint32(1); c <= 3; c++ {
 			for _, e := range bEndpointLists {
 				ds = append(ds, mkD([]DGroup{{Name: "g1", Entries: []DEntry{{Unit: u, Count: c, Endpoints: e}}}}))
@@ -218,6 +231,37 @@ func grammarD() (ds []dCase, ms []mCase) {
 				ms = append(ms, mkM([]MGroup{{Name: "g1", Services: []MService{{Unit: u, Count: c, Expose: x}}}}))
 			}
 		}
+	}
+	return
+}
+
+// grammarE: attribute lists. On-chain units: the base unit and, for each of cpu / memory / storage,
+// the canonical, duplicate-first and reordered two-attribute lists; manifest units: the base unit and
+// every attribute variant on every resource. Entries / services: sequences of length 1..2 x count 1..2.
+func grammarE() (ds []dCase, ms []mCase) {
+	dUnits := []int{0}
+	for _, v := range []int{0, 1, 2} {
+		for r := 0; r < 3; r++ {
+			dUnits = append(dUnits, attrUnitFirst+3*v+r)
+		}
+	}
+	mUnits := []int{0}
+	for i := attrUnitFirst; i < len(unitAlphabet); i++ {
+		mUnits = append(mUnits, i)
+	}
+	for _, seq := range sequences(len(dUnits)*2, 2) {
+		g := DGroup{Name: "g1"}
+		for _, x := range seq {
+			g.Entries = append(g.Entries, DEntry{Unit: dUnits[x/2], Count: uint32(x%2 + 1)})
+		}
+		ds = append(ds, mkD([]DGroup{g}))
+	}
+	for _, seq := range sequences(len(mUnits)*2, 2) {
+		g := MGroup{Name: "g1"}
+		for _, x := range seq {
+			g.Services = append(g.Services, MService{Unit: mUnits[x/2], Count: uint32(x%2 + 1)})
+		}
+		ms = append(ms, mkM([]MGroup{g}))
 	}
 	return
 }
@@ -264,6 +308,7 @@ func errStr(err error) string {
 type pairCounters struct {
 	evals, oracleAccept, oracleReject, bareDup, provAccept, provReject int64
 	pairs, ntAccept, ntReject                                          int64
+	orderOnlyAccepted, orderOnlyRejected                               int64
 	_                                                                  [8]int64 // keep workers on separate cache lines
 }
 
@@ -271,6 +316,7 @@ func (c *pairCounters) local(grammar string) imc.Local {
 	return imc.Local{
 		"evaluations": c.evals, "oracle_accept/" + grammar: c.oracleAccept, "oracle_reject/" + grammar: c.oracleReject,
 		"bare_accepts_duplicate_group_names": c.bareDup, "provider_accept/" + grammar: c.provAccept, "provider_reject/" + grammar: c.provReject,
+		"attribute_order_only/accepted_by_tree": c.orderOnlyAccepted, "attribute_order_only/rejected_by_tree": c.orderOnlyRejected,
 		"pairs/" + grammar: c.pairs, "nontrivial_accept/" + grammar: c.ntAccept, "nontrivial_reject/" + grammar: c.ntReject,
 	}
 }
@@ -342,6 +388,20 @@ func runSingleGroupGrammar(name string, ds []dCase, ms []mCase, rep *imc.Reporte
 		d, m := &ds[i/nm], &ms[i%nm]
 		l := &locals[w]
 		want := d.key == m.key // precomputed totals of the oracle, see mkD / mkM
+		if want && d.okey != m.okey {
+			// only the order inside attribute lists differs: either verdict is tolerated, see oracle.go
+			l.evals += 2
+			l.pairs++
+			if validation.ValidateManifestWithDeployment(&m.manifest, d.chain) == nil && validation.ValidateManifestWithGroupSpecs(&m.manifest, d.specs) == nil {
+				l.orderOnlyAccepted++
+			} else {
+				l.orderOnlyRejected++
+				if l.orderOnlyRejected == 1 {
+					sampler.Offer(name+"/attribute-order-only:rejected-by-the-tree", func() interface{} { return pairSample(d, m, want) })
+				}
+			}
+			return
+		}
 		checkPair(name, d, m, want, false, rep, l)
 		l.pairs++
 		// non-trivial cases, both verdict classes
